@@ -818,7 +818,7 @@ func (x *Exec) makeSlice(fr *Frame, st *State, i *ssa.MakeSlice) Value {
 	el := i.Type().Underlying().(*types.Slice).Elem()
 	x.safety(fr, st, "alloc-bound", "makeslice", "(and (bvule "+n+" "+c+") (bvule "+c+" #x0000000080000000))", i.Pos())
 	r := x.newRef(st)
-	x.fillArray(st, el, rootKey(types.NewSlice(el)), r, nil)
+	x.fillArray(st, el, rootKey(sliceRoot(el, "")), r, nil)
 	return SliceV{Base: r, Off: bvLit(0, 64), Len: n, Cap: c, Elem: el, New: true}
 }
 
@@ -983,8 +983,8 @@ func (x *Exec) copyOp(fr *Frame, st *State, d, s SliceV) Value {
 		q := x.em.fresh("i")
 		oldd := "(select " + cur + " " + d.Base + ")"
 		olds := "(select " + x.heapGet(st, x.leaf(sleaves[li][0], 1, sleaves[li][1])) + " " + s.Base + ")"
-		x.em.assume(fmt.Sprintf("(forall ((%s (_ BitVec 64))) (! (=> (bvult %s %s) (= (select %s (at %s %s)) (select %s (at %s %s)))) :pattern ((select %s (at %s %s)))))",
-			q, q, n, inner, d.Off, q, olds, s.Off, q, inner, d.Off, q))
+		x.em.assume(fmt.Sprintf("(forall ((%s (_ BitVec 64))) (! (=> (bvult %s %s) (= (select %s (at %s %s)) (select %s (at %s %s)))) :pattern ((select %s (at %s %s))) :pattern ((select %s (at %s %s)))))",
+			q, q, n, inner, d.Off, q, olds, s.Off, q, inner, d.Off, q, olds, s.Off, q))
 		x.em.assume(fmt.Sprintf("(forall ((%s (_ BitVec 64))) (! (=> (not (and (bvule %s %s) (bvult %s (bvadd %s %s)))) (= (select %s %s) (select %s %s))) :pattern ((select %s %s))))",
 			q, d.Off, q, q, d.Off, n, inner, q, oldd, q, inner, q))
 		st.Heap[lf[0]] = x.em.define("H.copy", l.ArraySort(), "(store "+cur+" "+d.Base+" "+inner+")")
